@@ -17,6 +17,11 @@ pub enum FsCase {
     Small(String, String),
     /// grid: length n, fill kind, position of the differing byte, (byte in a, byte in b); b_short = b is the prefix a[..n-1]
     Grid { n: usize, fill: u8, pos: usize, x: u8, y: u8, b_short: bool },
+    /// substring search grid (coverage audit): haystack of length n; kind 0 = pairwise distinct bytes (unique occurrence),
+    /// kind 1 = all 0x61 with a single 0x62 at start+len-1 (every earlier window is a near miss: the needle a..ab occurs
+    /// first exactly at `start`), kind 2 = period-3 bytes 61 62 63 (many occurrences, the first one counts);
+    /// needle = haystack[start..start+len], with its last byte altered when `absent`
+    Find { n: usize, kind: u8, start: usize, len: usize, absent: bool },
 }
 
 fn fill(n: usize, kind: u8) -> Vec<u8> {
@@ -28,9 +33,30 @@ fn fill(n: usize, kind: u8) -> Vec<u8> {
     }
 }
 
+fn find_hay(n: usize, kind: u8, start: usize, len: usize) -> Vec<u8> {
+    match kind {
+        0 => (0..n).map(|i| (i * 37 + 11) as u8).collect(),
+        1 => {
+            let mut h = vec![0x61u8; n];
+            h[start + len - 1] = 0x62;
+            h
+        }
+        _ => (0..n).map(|i| 0x61 + (i % 3) as u8).collect(),
+    }
+}
+
 impl FsCase {
     fn operands(&self) -> (Vec<u8>, Vec<u8>) {
         match self {
+            FsCase::Find { n, kind, start, len, absent } => {
+                let h = find_hay(*n, *kind, *start, *len);
+                let mut nd = h[*start..*start + *len].to_vec();
+                if *absent {
+                    // 0x7E occurs in no haystack of kind 1/2; for kind 0 the altered needle is looked up by the reference anyway
+                    *nd.last_mut().unwrap() = 0x7E;
+                }
+                (h, nd)
+            }
             FsCase::Small(a, b) => (unhex(a).unwrap(), unhex(b).unwrap()),
             FsCase::Grid { n, fill: k, pos, x, y, b_short } => {
                 let mut a = fill(*n, *k);
@@ -75,6 +101,46 @@ fn gen_fs(_tier: Tier, f: &mut dyn FnMut(FsCase) -> bool) {
             }
         }
     }
+    // ---- coverage audit: lengths around the 8-byte word tail of the hash loops (hash_avx2: 32-byte blocks, then 8-byte
+    // words, then single bytes; hash_sse2: 16-byte blocks) and beyond two/four SIMD blocks
+    for n in [5usize, 7, 8, 9, 23, 24, 25, 39, 40, 41, 47, 48, 49, 95, 96, 97, 127, 128, 129] {
+        for fill in 0..4u8 {
+            let mut poss = vec![0usize, 7.min(n - 1), 8.min(n - 1), n / 2, 31.min(n - 1), 32.min(n - 1), n - 2, n - 1];
+            poss.sort_unstable();
+            poss.dedup();
+            for pos in poss {
+                for (x, y) in [(0x61u8, 0x61u8), (0x61, 0x62), (0x80, 0x7F), (0x00, 0xFF), (0x00, 0x01)] {
+                    for b_short in [false, true] {
+                        if !f(FsCase::Grid { n, fill, pos, x, y, b_short }) {
+                            return;
+                        }
+                    }
+                }
+            }
+        }
+    }
+    // ---- coverage audit: substring search with needles that start in one 16/32/64-byte block and end in the next
+    for n in [15usize, 16, 17, 31, 32, 33, 34, 48, 63, 64, 65, 66, 96, 127, 128, 129, 130] {
+        for len in [1usize, 2, 3, 4, 5, 8, 15, 16, 17, 31, 32, 33, 63, 64, 65] {
+            if len > n {
+                continue;
+            }
+            let last = n - len;
+            let mut starts = vec![0usize, 1, 7, 8, 9, 13, 14, 15, 16, 17, 29, 30, 31, 32, 33, 47, 48, 61, 62, 63, 64, 65, last.saturating_sub(1), last];
+            starts.retain(|&s| s <= last);
+            starts.sort_unstable();
+            starts.dedup();
+            for start in starts {
+                for kind in 0..3u8 {
+                    for absent in [false, true] {
+                        if !f(FsCase::Find { n, kind, start, len, absent }) {
+                            return;
+                        }
+                    }
+                }
+            }
+        }
+    }
 }
 
 /// `v` copied so that it starts `al` bytes after an 8-byte boundary
@@ -85,8 +151,11 @@ struct Aligned {
 }
 impl Aligned {
     fn new(v: &[u8], al: usize) -> Aligned {
-        let mut buf = vec![0xA5A5_A5A5_A5A5_A5A5u64; (v.len() + al) / 8 + 2];
+        // (audit) 8 whole words of padding after the string, and padding bytes that differ from copy to copy: a hash or
+        // compare that reads past the end (or before the start) of the view sees different bytes in different copies
+        let mut buf = vec![0u64; (v.len() + al) / 8 + 10];
         let bytes = unsafe { std::slice::from_raw_parts_mut(buf.as_mut_ptr() as *mut u8, buf.len() * 8) };
+        bytes.fill(0xA5 ^ (al as u8).wrapping_mul(0x1B));
         bytes[al..al + v.len()].copy_from_slice(v);
         Aligned { buf, al, len: v.len() }
     }
@@ -163,7 +232,40 @@ fn unary(a: &[u8], fa: FastStr, lc: &str) -> Result<(), zverif::Fail> {
     Ok(())
 }
 
+/// (audit) substring search grid: haystack at all 8 alignments x needle at alignments {0, 3}
+fn run_find(c: &FsCase) -> R {
+    let (h, nd) = c.operands();
+    let FsCase::Find { n, len, absent, kind, .. } = c else { unreachable!() };
+    let want = naive_find(&h, &nd);
+    let class = format!("find_grid/hay{}/needle{}", if *n < 32 { "<32" } else if *n < 64 { "<64" } else { ">=64" }, if *len == 1 { "=1" } else if *len < 4 { "<4" } else if *len <= 16 { "<=16" } else { ">16" });
+    let n_copies = [Aligned::new(&nd, 0), Aligned::new(&nd, 3)];
+    for al in 0..8 {
+        let hc = Aligned::new(&h, al);
+        let fh = FastStr::new(hc.bytes());
+        for nc in &n_copies {
+            let fnd = FastStr::new(nc.bytes());
+            let got = fh.find(fnd);
+            ensure!(got == want, "find", class.clone(), "find(needle of {} bytes) in a {}-byte haystack (kind {kind}, alignment {al}) = {:?} want {:?}; needle {}", nd.len(), h.len(), got, want, brief(&nd));
+            ensure!(fh.starts_with(fnd) == h.starts_with(&nd) && fh.ends_with(fnd) == h.ends_with(&nd), "prefix_suffix", "find_grid/starts_ends", "starts_with/ends_with differ for needle {} in a {}-byte haystack", brief(&nd), h.len());
+        }
+        if nd.len() == 1 {
+            ensure!(fh.find_byte(nd[0]) == want && fh.find_byte_optimized(nd[0]) == want, "find", "find_grid/find_byte", "find_byte({:#x}) in a {}-byte haystack (alignment {al}) want {:?}", nd[0], h.len(), want);
+        }
+        // the part of the haystack from the match on / the part before it: views into the middle of a buffer
+        if let Some(p) = want {
+            let tail = fh.substring_from(p);
+            ensure!(tail.starts_with(FastStr::new(&nd)) && tail.find(FastStr::new(&nd)) == Some(0), "find", "find_grid/tail", "the haystack from the match position on does not start with the needle");
+            let head = fh.prefix(p + nd.len() - 1);
+            ensure!(head.find(FastStr::new(&nd)) == None, "find", "find_grid/head", "a match is reported in the part of the haystack that ends one byte before the first occurrence ends");
+        }
+    }
+    Ok(Outcome::pass(&format!("{class}/{}", if want.is_none() { "absent" } else if *absent { "altered-but-present" } else { "present" })))
+}
+
 fn run_fs(c: &FsCase) -> R {
+    if matches!(c, FsCase::Find { .. }) {
+        return run_find(c);
+    }
     let (a, b) = c.operands();
     let lc = len_class(&a, &b);
     let want_cmp = a.cmp(&b);
@@ -211,6 +313,7 @@ fn run_fs(c: &FsCase) -> R {
     let do_unary = match c {
         FsCase::Small(_, bh) => bh.is_empty(),
         FsCase::Grid { b_short, x, y, .. } => *b_short && x == y,
+        FsCase::Find { .. } => false,
     };
     if do_unary {
         unary(&a, FastStr::new(a_copies[1].bytes()), lc)?;
@@ -228,7 +331,7 @@ fn run_fs(c: &FsCase) -> R {
 pub fn register(reg: &mut Registry) {
     reg.add(fam(
         "FastStr",
-        "all 341^2 ordered pairs of byte strings of length <=4 over {00,61,80,FF}, plus a grid: lengths {15,16,17,31,32,33,63,64,65} x 4 fills x differing position {0,7,8,n/2,n-2,n-1} x byte pairs {equal, 61/62, 7F/80, 00/FF, 00/01 and reversed} x {same length, b = a[..n-1]}; each operand copied to all 8 alignments (64 combinations per pair) for ==, cmp, hash_fast/Hash, starts_with, ends_with, find, common_prefix_len; per first operand: accessors, get_byte, find_byte(_optimized), split on 6 bytes, prefix/suffix/substring_from/substring over all (start,len) incl. usize::MAX",
+        "all 341^2 ordered pairs of byte strings of length <=4 over {00,61,80,FF}, plus a grid: lengths {15,16,17,31,32,33,63,64,65} x 4 fills x differing position {0,7,8,n/2,n-2,n-1} x byte pairs {equal, 61/62, 7F/80, 00/FF, 00/01 and reversed} x {same length, b = a[..n-1]}; each operand copied to all 8 alignments (64 combinations per pair) for ==, cmp, hash_fast/Hash, starts_with, ends_with, find, common_prefix_len; per first operand: accessors, get_byte, find_byte(_optimized), split on 6 bytes, prefix/suffix/substring_from/substring over all (start,len) incl. usize::MAX. Coverage audit: the aligned copies are surrounded by padding bytes that differ from copy to copy (a read outside the view changes the hash / answer of some copy); a second length grid {5,7,8,9,23,24,25,39,40,41,47,48,49,95,96,97,127,128,129} (8-byte word tails after 16/32-byte blocks) x 4 fills x differing position {0,7,8,n/2,31,32,n-2,n-1} x 5 byte pairs x {same length, prefix}; a substring-search grid: haystack length {15,16,17,31,32,33,34,48,63,64,65,66,96,127,128,129,130} x needle length {1,2,3,4,5,8,15,16,17,31,32,33,63,64,65} x needle start {0,1,7,8,9,13..17,29..33,47,48,61..65,last-1,last} x haystack kind {distinct bytes, all 61 with one 62 so that every earlier window is a near miss, period 3} x {needle present, last needle byte altered}, haystack at 8 alignments x needle at 2",
         gen_fs,
         run_fs,
     ));
